@@ -184,6 +184,9 @@ class Scope(list):
             var = self.variables(name[1:])
             if var is False:
                 raise SyntaxError('Unknown variable %s' % name)
+            if not isinstance(var.value[0], string_types):
+                # the value is not a name (a list, an expression, a variable)
+                raise SyntaxError('Illegal indirection %s' % name)
             name = '@' + utility.destring(var.value[0])
             var = self.variables(name)
             if var is False:
